@@ -119,13 +119,17 @@ def run(tier, seed, replay=None):
                 def laps(p):
                     # replay the positions as the implementation keeps them (both reset when the ring drains): does some write start
                     # at ring offset 0 while unread bytes remain?
+                    # ... and are those bytes read afterwards?
                     rpos = wpos = 0
+                    lapped = False
                     for x in (nodes[n]["last"] for n in p[1:]):
                         if x.get("a") == "WSome":
                             if wpos > rpos and wpos % capu == 0:
-                                return True
+                                lapped = True
                             wpos += x.get("n", 0)
                         elif x.get("a") == "RSome":
+                            if lapped:
+                                return True
                             rpos += x.get("n", 0)
                             if rpos == wpos:
                                 rpos = wpos = 0
